@@ -514,3 +514,35 @@ func SameHandle(t *rapid.T) *Spec {
 	s.Start = start
 	return s
 }
+
+// BigAuto builds a grammar whose automaton has a few hundred states: one
+// alternative per distinct word of length 3-4 over 4-6 terminals (a trie), so
+// that state numbers pass 100 and 200.
+func BigAuto(t *rapid.T) *Spec {
+	s := base()
+	nt := rapid.IntRange(4, 6).Draw(t, "nT")
+	s.Terms = mkTerms(t, nt, false)
+	s.NTs = []NonTerm{{Name: "top"}, {Name: "w"}}
+	nw := rapid.IntRange(70, 130).Draw(t, "nwords")
+	seen := map[string]bool{}
+	for i := 0; i < nw; i++ {
+		l := rapid.IntRange(3, 4).Draw(t, "wlen")
+		rhs := make([]int, l)
+		for j := range rhs {
+			rhs[j] = rapid.IntRange(0, nt-1).Draw(t, "wt")
+		}
+		k := fmt.Sprint(rhs)
+		if seen[k] {
+			continue
+		}
+		seen[k] = true
+		s.Rules = append(s.Rules, Rule{LHS: 1, RHS: rhs, Prec: -1})
+	}
+	if rapid.Bool().Draw(t, "list") {
+		s.Rules = append(s.Rules, Rule{LHS: 0, RHS: []int{nt + 1}, Prec: -1}, Rule{LHS: 0, RHS: []int{nt + 0, nt + 1}, Prec: -1})
+	} else {
+		s.Rules = append(s.Rules, Rule{LHS: 0, RHS: []int{nt + 1}, Prec: -1})
+	}
+	s.Start = 0
+	return s
+}
